@@ -18,7 +18,7 @@ ASSUME_WIRE = [
 ]
 ASSUME_SRV = [
     "exhaustive part: Server.tla with <= 4 connections, 1-2 listeners, limit 2, all ways a connection ends, all interleavings; safety and liveness under weak fairness",
-    "binding: connection lifecycles are replayed on an in-process MemcacheTcpServer (hook events of the semaphore merged by one global sequence counter) and black-box on the memcrsd binary; 'as soon as a slot frees' taken as within 2 s; idle timeout configured to 2 s",
+    "binding: connection lifecycles are replayed on an in-process MemcacheTcpServer (hook events of the semaphore merged by one global sequence counter) and black-box on the memcrsd binary; 'as soon as a slot frees' taken as within 5 s; idle timeout configured to 2 s",
 ]
 ASSUME_CONC = [
     "exhaustive part: MemcConc.tla, 2 (quick) / 3 (thorough) clients with one command each on one key, initial states absent / present / expired, every interleaving at the granularity of the hooked accesses",
@@ -127,6 +127,9 @@ def job_trace(driver_args, spec, out_name, d, desc, port=None, lin=False):
     if port:
         args += ["--port", port]
     st = harness(args, timeout=1800)
+    if driver_args[0] == "cfg-suite":
+        # the suite writes three traces: pick the one the spec validates
+        out = out + {"WireTcpTrace": ".wire.ndjson", "MemcTrace": ".cmd.ndjson", "ServerTrace": ".conn.ndjson"}.get(spec, ".cmd.ndjson")
     if lin:
         res = conclib.lin_check(out, name=os.path.basename(d) + "-" + out_name)
     else:
@@ -170,6 +173,8 @@ def run_wire(pid, tier, seed, replay):
     quick = tier == "quick"
     if replay:
         rp = json.load(open(replay))
+        if rp["args"] and rp["args"][0] == "cfg-suite":
+            build_memcrsd()
         job, res = job_trace(rp["args"], rp["spec"], "replay.ndjson", d, "replay", lin=(rp["spec"] == "MemcLin"))
         run.add_result(job, res)
         return run.finish(ASSUME_WIRE)
@@ -212,7 +217,10 @@ def run_wire(pid, tier, seed, replay):
                      "WireTcpTrace", "tcp-tbig.ndjson", "socket streams tbig", ports(2)))
     if pid in ("C12", "C11", "C13"):
         # programs of abstract commands pipelined over a socket, judged by the store contract (order, quiet rules, TooLarge)
-        for i, (prof, cnt) in enumerate([("general", 10 * n), ("quiet", 10 * n), ("cond", 6 * n)]):
+        progs = [("general", 10 * n), ("quiet", 10 * n), ("cond", 6 * n)]
+        if pid == "C11":
+            progs.append(("huge", 6 * n))       # values around 64 KiB / 128 KiB through the server's own write path
+        for i, (prof, cnt) in enumerate(progs):
             jobs.append((["tcp-prog", "--profile", prof, "--count", cnt, "--seed", seed * 100 + 70 + i, "--pipeline", 6, "--chunk", 11],
                          "MemcTrace", "prog-%s.ndjson" % prof, "pipelined programs %s" % prof, ports(6 + i)))
 
@@ -233,6 +241,21 @@ def run_wire(pid, tier, seed, replay):
         if os.path.exists(reg):
             r = seqlib.run_programs(reg, "regress-" + pid)
             run.add_result({"driver": "run-seq", "args": ["run-seq", "--programs", reg], "spec": "MemcTrace", "desc": "regression programs"}, r)
+    if pid == "C13":
+        # the limit that is enforced is the one configured, also above 1 MiB: the memcrsd binary started with
+        # --item-size-limit 3 MiB, a body of exactly the limit is stored, one byte more is refused
+        binp = build_memcrsd()
+        for i, (rt, lim) in enumerate([("multi-thread", 3 * 1024 * 1024)] if quick else [("multi-thread", 3 * 1024 * 1024), ("current-thread", 2 * 1024 * 1024), ("multi-thread", 1536 * 1024)]):
+            prefix = os.path.join(d, "cfglimit%d" % i)
+            st = harness(["cfg-suite", "--bin", binp, "--runtime", rt, "--threads", 2, "--conn-limit", 3, "--item-limit", lim,
+                          "--count", 1, "--seed", seed, "--port", ports(30 + i), "--out", prefix], timeout=600)
+            if not st.get("started"):
+                raise ToolError("memcrsd did not start with %s" % st.get("args"))
+            res = tlc_trace(prefix + ".wire.ndjson", spec="WireTcpTrace", name="c13-cfg-%d" % i)
+            run.add_result({"driver": "cfg-suite", "args": ["cfg-suite", "--bin", binp, "--runtime", rt, "--threads", 2, "--conn-limit", 3,
+                                                            "--item-limit", lim, "--count", 1, "--seed", seed], "spec": "WireTcpTrace",
+                            "desc": "memcrsd --item-size-limit %d" % lim}, res)
+            run.traces += 1
     run.extra["tlc_generated_cases_replayed"] = ncases
     required = {"C09": ["executed.canonical", "closed.odd", "served"], "C10": ["closed.invalid", "garbage", "await"],
                 "C11": ["executed.canonical", "served"], "C12": ["served", "quit", "quitq", "unimpl.answered"],
@@ -247,6 +270,8 @@ def run_srv(pid, tier, seed, replay):
     quick = tier == "quick"
     if replay:
         rp = json.load(open(replay))
+        if rp["args"] and rp["args"][0] == "cfg-suite":
+            build_memcrsd()
         job, res = job_trace(rp["args"], rp["spec"], "replay.ndjson", d, "replay")
         run.add_result(job, res)
         return run.finish(ASSUME_SRV)
@@ -261,7 +286,7 @@ def run_srv(pid, tier, seed, replay):
         n = 3 if quick else 24
         for i in range(n):
             jobs.append((["tcp-conn", "--count", 2, "--seed", seed * 100 + i], "ServerTrace", "conn-%d.ndjson" % i, "connection lifecycles #%d" % i, ports(i * 2)))
-        required = ["acquire", "release", "answered", "waiting", "finish", "end.quit", "end.close"]
+        required = ["acquire", "release", "answered", "waiting", "finish", "end.idlemid", "end.idle", "end.close"]
     elif pid == "C18":
         run.add_mc("MC_Wire", "MC_Wire_cut", workers=10)
         cases, ncases = gen_wire_cases(run, seed, 200 if quick else 2000)
@@ -270,7 +295,7 @@ def run_srv(pid, tier, seed, replay):
         for i in range(n):
             jobs.append((["tcp-fault", "--count", 1, "--seed", seed * 100 + i, "--cuts", "sample" if quick else "all"],
                          "FaultTrace", "fault-%d.ndjson" % i, "faults on stream #%d" % i, ports(1 + i)))
-        required = ["close.all", "halfclose.all", "reset.prefix", "corrupt.all", "silence.all", "cut.closed"]
+        required = ["close.all", "halfclose.all", "reset.prefix", "corrupt.all", "silence.all", "cut.closed", "bulky.contained"]
         run.extra["tlc_generated_cases_replayed"] = ncases
     else:
         raise ToolError("unknown server property " + pid)
@@ -307,6 +332,15 @@ def run_c20(pid, tier, seed, replay):
     binp = build_memcrsd()
     d = run.dir
     quick = tier == "quick"
+    if replay:
+        rp = json.load(open(replay))
+        if not rp.get("args"):
+            raise ToolError("this C20 replay (cross-configuration comparison) has no single command line: re-run ./check C20")
+        job, res = job_trace(rp["args"], rp["spec"], "replay", d, "replay")
+        for v in res.get("violations", []):
+            v["tags"] = sorted(set(v.get("tags", [])) | {"C20"})
+        run.add_result(job, res)
+        return run.finish(ASSUME_SRV)
     configs = list(CONFIGS_QUICK)
     if not quick:
         for rt in ("current-thread", "multi-thread"):
@@ -403,12 +437,22 @@ def run_conc(pid, tier, seed, replay):
                      "swarms-%s.ndjson" % k, "3 clients issuing the same command", None))
         jobs.append((["conc", "--kind", k, "--set", "sampled", "--count", 12 if quick else 150, "--seed", seed, "--max-runs", 300 if quick else 3000, "--random-runs", 100],
                      "MemcLin", "sampled-%s.ndjson" % k, "sampled 2x2 / 3-client programs", None))
+    # the store engine on its own (Cache trait object, below MemcStore's key lock): get / set / CAS-set / delete
+    if pid in ("C03", "C16"):
+        for p in range(4):
+            jobs.append((["conc", "--kind", "C03", "--set", "pairs", "--layer", "cache", "--part", p, "--parts", 4, "--max-runs", 4000], "MemcLin",
+                         "cache-pairs-%d.ndjson" % p, "all schedules of 2-client programs on the Cache layer, part %d" % p, None))
+        jobs.append((["conc", "--kind", "C03", "--set", "swarms", "--layer", "cache", "--max-runs", 600 if quick else 20000, "--random-runs", 300], "MemcLin",
+                     "cache-swarms.ndjson", "3 CAS-stores with the same CAS on the Cache layer", None))
     # OS-scheduled threads (3-5, up to 8 commands) hammering one key, barrier-separated rounds, no scheduler
     for k in kinds:
         for i in range(2 if quick else 10):
             jobs.append((["conc-stress", "--kind", k, "--count", 30 if quick else 100, "--rounds", 20 if quick else 50, "--seed", seed * 10 + i], "MemcLin",
                          "stress-%s-%d.ndjson" % (k, i), "OS-thread stress %s #%d" % (k, i), None))
     if pid == "C16":
+        # many OS threads hammering the store for a while, then a flush: every command returns (watchdog)
+        jobs.append((["conc-hammer", "--threads", 8, "--ops", 20000 if quick else 100000, "--rounds", 2 if quick else 6], "MemcLin",
+                     "hammer.ndjson", "8 OS threads x 20000 commands, then flush", None))
         jobs.append((["conc", "--kind", "C16", "--set", "eviction", "--count", 20 if quick else 200, "--seed", seed, "--max-runs", 300 if quick else 2000, "--random-runs", 100],
                      "MemcLin", "eviction.ndjson", "stores under eviction pressure, flushes", None))
 
@@ -441,6 +485,8 @@ def absorb_lin(run, job, res):
                                       "name": desc["name"], "init": desc["init"]})
             continue
         tags = {"C16"} if incomplete else ({"C04"} if desc["kind"] == "C04" else {"C03"})
+        if desc.get("init") == "expired" and not incomplete:
+            tags.add("C05")        # an expired item was returned / treated as present (or an acknowledged successor lost)
         if incomplete:
             rule = "did.not.complete." + rej["outcome"]
         else:
@@ -479,3 +525,29 @@ def conc_eviction_extra(pid, tier, seed):
         bad.append(v)
     return len(bad), {"concurrent_eviction": {"histories": run.traces, "schedules_executed": run.extra.get("schedules_executed", 0),
                                               "accepted": run.cov.get("history.linearizable", 0)}}
+
+
+def conc_expiry_extra(pid, tier, seed):
+    """C05 under concurrency: every schedule of the 2-client programs whose key starts present-but-expired (lookups racing
+    each other's lazy collection and racing stores), judged by MemcLin."""
+    run = Run(pid, tier, seed)
+    run.dir = workdir("check-" + pid + "-conc")
+    jobs = []
+    for k in ("C03", "C04"):
+        for p in range(4):
+            jobs.append((["conc", "--kind", k, "--set", "pairs", "--init", "expired", "--part", p, "--parts", 4, "--max-runs", 4000], "MemcLin",
+                         "expired-%s-%d.ndjson" % (k, p), "all schedules, key expired, %s part %d" % (k, p), None))
+    jobs.append((["conc-stress", "--kind", "C04", "--count", 30, "--rounds", 10, "--seed", seed], "MemcLin", "stress.ndjson", "OS-thread stress", None))
+
+    def one(j):
+        return job_trace(j[0], j[1], j[2], run.dir, j[3], lin=True)
+    for job, res in parallel(one, jobs, workers=8):
+        absorb_lin(run, job, res)
+    bad = []
+    for (job, res, v) in run.bad:
+        path = write_replay(pid, {"driver": job.get("driver"), "args": job.get("args"), "spec": "MemcLin", "property": pid, "violation": v})
+        log("VIOLATION property=%s replay=%s" % (pid, path))
+        log("  %s: %s" % (job.get("desc"), json.dumps(v)[:200]))
+        bad.append(v)
+    return len(bad), {"concurrent_expiry": {"histories": run.traces, "schedules_executed": run.extra.get("schedules_executed", 0),
+                                            "accepted": run.cov.get("history.linearizable", 0)}}
